@@ -681,6 +681,9 @@ class CellsImpl(*_cells_impl_base):
             data = {}
         self.data.update(data)
         self.input_keys = set(data.keys())
+        for key in self.input_keys:
+            # As set_value_from_key does for assigned values
+            self.model.tracegraph.add_node(key_to_node(self, key))
 
         BaseNamespaceReferrer.__init__(self, space._namespace)
         self._namespace = self.parent._namespace
